@@ -99,6 +99,8 @@ fn cmd_run(args: &[String]) -> i32 {
     let count: u64 = arg(args, "--count").unwrap_or("1000").parse().expect("--count");
     let out = arg(args, "--out").expect("--out FILE");
     let hash_every: u64 = arg(args, "--hash-every").unwrap_or("1").parse().expect("--hash-every");
+    // alternatively: record the event-log hash of the first K runs of this range only
+    let hash_first: Option<u64> = arg(args, "--hash-first").map(|v| v.parse().expect("--hash-first"));
     let max_secs: f64 = arg(args, "--max-secs").unwrap_or("0").parse().expect("--max-secs");
     let max_violations: usize = arg(args, "--max-violations").unwrap_or("12").parse().expect("--max-violations");
     let inflight = arg(args, "--inflight").map(|s| s.to_string());
@@ -145,7 +147,11 @@ fn cmd_run(args: &[String]) -> i32 {
             let key: String = why.split(" at op ").next().unwrap_or("").chars().take(90).collect();
             *abort_reasons.entry(key).or_insert(0) += 1;
         }
-        if index % hash_every == 0 {
+        let want_hash = match hash_first {
+            Some(k) => index - start < k,
+            None => index % hash_every == 0,
+        };
+        if want_hash {
             hashes.push((index, res.log_hash));
         }
         if samples.len() < 2 && res.nontrivial && res.violation.is_none() {
@@ -324,6 +330,9 @@ fn main() {
     // panics inside VM calls are outcomes, not noise
     std::panic::set_hook(Box::new(|_| {}));
     guard::install_signal_handlers();
+    if let Some(m) = arg(&args, "--max-ops") {
+        gen::MAX_OPS.store(m.parse().expect("--max-ops"), std::sync::atomic::Ordering::Relaxed);
+    }
     let code = match args.get(1).map(|s| s.as_str()) {
         Some("run") => cmd_run(&args),
         Some("replay") => cmd_replay(&args),
